@@ -59,8 +59,9 @@ func genCase(t *rapid.T) Case {
 	c.Merge = rapid.SampledFrom([]int{0, 0, 0, 300, 4096}).Draw(t, "merge")
 	ninc := rapid.SampledFrom([]int{1, 1, 2}).Draw(t, "ninc")
 	for i := 0; i < ninc; i++ {
-		o := gen.StreamOpts{Video: []string{"avc", "avc", "hevc", ""}, Audio: []string{"aac", "aac", "g711a", ""},
-			MaxGops: 5, MaxGopLen: 6, MaxNalLen: 1500, HeaderChurn: true, MultiNal: true, Cts: true}
+		o := gen.StreamOpts{Video: []string{"avc", "avc", "hevc", ""}, Audio: []string{"aac", "aac", "aac", "g711a", "g711u", "opus", "opus", ""},
+			MaxGops: 5, MaxGopLen: 6, MaxNalLen: 1500, HeaderChurn: true, MultiNal: true, Cts: true,
+			MidMeta: true, MidHeaders: true, AscChurn: true}
 		cd := gen.GenCodecs(t, o)
 		items := gen.GenItems(t, cd, o, uint32(i+1))
 		c.Incs = append(c.Incs, Inc{Codecs: cd, Items: items})
